@@ -170,6 +170,12 @@ def class_sig(c, thr):
     return "%s:%s" % ("n_lt_threshold" if c["n"] < thr else "n_ge_threshold", "force_true" if c["force"] else "force_false")
 
 
+def xkey(X):
+    """content key of a data set (object ids are reused once an array is freed)"""
+    import hashlib
+    return hashlib.sha1(np.ascontiguousarray(X).tobytes()).hexdigest() + str(X.shape)
+
+
 def run_case(ctx, c, X, idx, dist, index_obj, thr, cache):
     """fits, oracle; returns (obs A, graphs dict)"""
     n, k = c["n"], c["k"]
@@ -177,11 +183,11 @@ def run_case(ctx, c, X, idx, dist, index_obj, thr, cache):
     A = fit(X, tabs, k, c["force"])
     desc = describe(c, X)
     kept_expected = c["cols"] >= k and c["rows"] == n
-    key_ord = (id(X), k, c["force"])
+    key_ord = (xkey(X), k, c["force"])
     if key_ord not in cache:
         cache[key_ord] = fit(X, None, k, c["force"])
     Cord = cache[key_ord]
-    key_ex = (id(X), k, False)
+    key_ex = (xkey(X), k, False)
     if key_ex not in cache:
         cache[key_ex] = fit(X, None, k, False)
     Cex = cache[key_ex]
@@ -210,13 +216,13 @@ def run_case(ctx, c, X, idx, dist, index_obj, thr, cache):
             if (mx > ATOL_EXACT or not same) and not (B is not None and B["exc"] is None and gdiff(A["graph"], B["graph"])[0] > ATOL):
                 ctx.fail("UMAP.fit.graph_:exact_tables_differ_from_own_exact:" + class_sig(c, thr),
                          "exact kNN tables give a graph differing from the ordinary exact fit by %g (same support: %s)" % (mx, same), desc)
-        other = cache.get(("A", id(X), k, c["cols"], c["rows"], c["tuple"], c["dtype"], bool(c.get("warp")), not c["force"]))
+        other = cache.get(("A", xkey(X), k, c["cols"], c["rows"], c["tuple"], c["dtype"], bool(c.get("warp")), not c["force"]))
         if other is not None and other["exc"] is None:
             mx, _ = gdiff(A["graph"], other["graph"])
             if mx > ATOL:
                 ctx.fail("UMAP.fit.graph_:force_changes_graph:" + ("n_lt_threshold" if n < thr else "n_ge_threshold"),
                          "same tables, force_approximation_algorithm False vs True: graphs differ by %g" % mx, desc)
-        cache[("A", id(X), k, c["cols"], c["rows"], c["tuple"], c["dtype"], bool(c.get("warp")), c["force"])] = A
+        cache[("A", xkey(X), k, c["cols"], c["rows"], c["tuple"], c["dtype"], bool(c.get("warp")), c["force"])] = A
     else:
         want = W_FEW if c["cols"] < k else W_ROWS
         if want not in A["warns"]:
